@@ -53,10 +53,10 @@ func (s *scope) pushForRange(loopVar string) (lVar, lInit, lStep, lCount, lIndex
 	s.n++
 	n := "_" + strconv.Itoa(s.n)
 	s.stack = append(s.stack, map[string]string{
-		loopVar:   loopVar + n,
-		"__var":   loopVar,
-		"__limit": loopVar + "Limit" + n,
-		"__index": loopVar + "Index" + n,
+		loopVar:  loopVar + n,
+		".var":   loopVar,
+		".limit": loopVar + "Limit" + n,
+		".index": loopVar + "Index" + n,
 	})
 	return loopVar + n,
 		loopVar + "Init" + n,
@@ -69,10 +69,10 @@ func (s *scope) pushForEach(loopVar string) (lVar, lList, lLen, lIndex string) {
 	s.n++
 	n := "_" + strconv.Itoa(s.n)
 	s.stack = append(s.stack, map[string]string{
-		loopVar:   loopVar + n,
-		"__var":   loopVar,
-		"__limit": loopVar + "Limit" + n,
-		"__index": loopVar + "Index" + n,
+		loopVar:  loopVar + n,
+		".var":   loopVar,
+		".limit": loopVar + "Limit" + n,
+		".index": loopVar + "Index" + n,
 	})
 	return loopVar + n,
 		loopVar + "List" + n,
@@ -84,8 +84,8 @@ func (s *scope) pushForEach(loopVar string) (lVar, lList, lLen, lIndex string) {
 // innermost loop whose variable is loopVar, or empty strings if there is none.
 func (s *scope) loop(loopVar string) (index, limit string) {
 	for i := len(s.stack) - 1; i >= 0; i-- {
-		if frame := s.stack[i]; frame["__var"] == loopVar && frame["__index"] != "" {
-			return frame["__index"], frame["__limit"]
+		if frame := s.stack[i]; frame[".var"] == loopVar && frame[".index"] != "" {
+			return frame[".index"], frame[".limit"]
 		}
 	}
 	return "", ""
